@@ -28,7 +28,7 @@ CLAIMED = {
 CLAIMED["C02"] = {
     "text": "Theorem eval_valid: by structural induction over ALL expression trees of and/or/xor/minus/not/degrade, evaluation on valid "
             "leaves yields a Valid MOC (canonical, inside the domain, aligned on the declared depth) of legal depth; per-operator "
-            "preservation theorems; unique-normal-form corollary; validB ⇔ Valid so that the executable judge run on every MOC the real "
+            "preservation theorems; the fixed-depth and range builders return a Valid MOC for in-domain cells / ranges (fixedDepth_builder_valid, range_builder_valid); unique-normal-form corollary; validB ⇔ Valid so that the executable judge run on every MOC the real "
             "code produces (operators, constructors, builders, adapters; geometry constructors as a labelled test) IS the property.",
     "design_ref": "DESIGN.md §4 C02, §10",
     "note": TB + "; producers not modelled (geometry, BMOC conversion, STC-S) are only tested through validB",
